@@ -148,6 +148,18 @@ impl LSched {
         }
         Some(g.pos[i].clone())
     }
+    /// the first of the threads `(i, generation)` to park (or finish); waits up to `timeout`
+    fn collect_any(&self, who: &[(usize, u64)], timeout: Duration) -> Option<(usize, Pos)> {
+        let mut g = self.m.lock().unwrap();
+        let t0 = Instant::now();
+        loop {
+            if let Some(&(i, _)) = who.iter().find(|(i, g0)| g.gen[*i] != *g0) {
+                return Some((i, g.pos[i].clone()));
+            }
+            let left = timeout.checked_sub(t0.elapsed())?;
+            g = self.cv.wait_timeout(g, left).unwrap().0;
+        }
+    }
     fn loading_by(&self, c: u64) -> Option<usize> {
         self.m.lock().unwrap().loading.get(&c).copied()
     }
@@ -236,11 +248,15 @@ pub struct LExtra {
     /// a thread got into `load` of a cell while another thread was running its initialiser
     pub overlapping_entries: usize,
     pub probes_blocked: usize,
+    /// steps that blocked inside the library without a hook telling why (`Lazy::load` without its yield points)
+    pub unhooked_blocks: usize,
     /// (cell, address) of every successful load
     pub handed_out: Vec<(usize, usize)>,
 }
 
 const PROBE: Duration = Duration::from_millis(40);
+/// a step that takes longer than this is taken to be blocked inside the library (a once-cell without the hook)
+const SOFT: Duration = Duration::from_millis(150);
 
 fn lworker<OC, SC>(me: usize, sched: &Arc<LSched>, file: &File<Vec<u8>, OC, SC, NoLog>, shared: Option<&(impl Resolve + Sync)>,
                    pages: &[RcRef<PagesNode>], items: &[LItem], out: &Mutex<Vec<Vec<String>>>, ptrs: &Mutex<Vec<(usize, usize)>>)
@@ -315,23 +331,48 @@ where
             }).collect()
         };
         loop {
-            // threads that were blocked on a cell which is free again run by themselves up to their next yield point
+            // threads that were blocked inside the library and have parked meanwhile
             for j in 0..n {
-                if let Some((g0, c)) = soft[j] {
-                    // (or which this very thread now initialises itself: the first initialiser failed)
-                    if sched.loading_by(c).map(|o| o == j).unwrap_or(true) {
+                if let Some((g0, _)) = soft[j] {
+                    let mut before = soft.clone();
+                    before[j] = None;
+                    let en = strict(&pos, &before, &sched);
+                    if let Some(p) = sched.collect(j, g0, Duration::from_millis(0)) {
+                        pos[j] = p.clone(); trace.push((j, p)); enabled_sets.push(en); soft[j] = None;
+                    }
+                }
+            }
+            // threads blocked on a cell which is free again (or which one of them now initialises itself: the first
+            // initialiser failed) run by themselves up to their next yield point: wait for the first of them
+            let free: Vec<(usize, u64)> = (0..n).filter_map(|j| match soft[j] {
+                Some((g0, c)) if c != u64::MAX && sched.loading_by(c).map(|o| o == j).unwrap_or(true) => Some((j, g0)),
+                _ => None,
+            }).collect();
+            if !free.is_empty() {
+                match sched.collect_any(&free, STEP_TIMEOUT) {
+                    Some((j, p)) => {
                         let mut before = soft.clone();
                         before[j] = None;
                         let en = strict(&pos, &before, &sched);
-                        match sched.collect(j, g0, STEP_TIMEOUT) {
-                            Some(p) => { pos[j] = p.clone(); trace.push((j, p)); enabled_sets.push(en); soft[j] = None; }
-                            None => { outcome = Outcome::Hang; }
-                        }
+                        pos[j] = p.clone(); trace.push((j, p)); enabled_sets.push(en); soft[j] = None;
+                        continue;
                     }
+                    None => { outcome = Outcome::Hang; }
                 }
             }
             if outcome == Outcome::Hang { break; }
             let en = strict(&pos, &soft, &sched);
+            if en.is_empty() && !su.optimistic || en.is_empty() && soft.iter().any(|s| s.is_some()) {
+                // nobody can be stepped; somebody blocked inside the library may be on its way back (whoever of
+                // them: the one that becomes the next initialiser parks, the others keep waiting for it)
+                let who: Vec<(usize, u64)> = (0..n).filter_map(|j| soft[j].map(|(g0, _)| (j, g0))).collect();
+                if !who.is_empty() {
+                    match sched.collect_any(&who, STEP_TIMEOUT) {
+                        Some((j, p)) => { pos[j] = p.clone(); trace.push((j, p)); enabled_sets.push(vec![j]); soft[j] = None; continue; }
+                        None => { outcome = Outcome::Hang; break; }
+                    }
+                }
+            }
             let mut cand = en.clone();
             if su.optimistic {
                 for i in 0..n {
@@ -348,9 +389,11 @@ where
             }
             if trace.len() >= MAX_STEPS { outcome = Outcome::Truncated; break; }
             let i = match chooser(trace.len(), &cand, &pos) { Some(i) => i, None => { outcome = Outcome::Truncated; break; } };
+            // (a replayed prefix can ask for a thread that is blocked inside the library this time: timing)
+            let i = if cand.contains(&i) { i } else { cand[0] };
             let probing = !en.contains(&i);
             let g0 = sched.gen_of(i);
-            match sched.step(i, if probing { PROBE } else { STEP_TIMEOUT }) {
+            match sched.step(i, if probing { PROBE } else { SOFT }) {
                 StepRes::At(p) => {
                     if probing { extra.overlapping_entries += 1; }
                     pos[i] = p.clone();
@@ -363,8 +406,11 @@ where
                         let c = if let Pos::LEnter(c) = pos[i] { c } else { u64::MAX };
                         soft[i] = Some((g0, c));
                     } else {
-                        outcome = Outcome::Hang;
-                        break;
+                        // recorded as a step of its own, so that schedules stay replayable by position
+                        extra.unhooked_blocks += 1;
+                        soft[i] = Some((g0, u64::MAX));
+                        trace.push((i, Pos::Blocked));
+                        enabled_sets.push(en);
                     }
                 }
             }
@@ -403,6 +449,7 @@ fn lvisible(p: &Pos) -> bool {
 fn lexplore(su: &LSetup, reduced: bool, max_runs: usize, mut each: impl FnMut(&RunOut, &LExtra)) -> Result<(usize, bool), String> {
     let mut prefix: Vec<usize> = vec![];
     let mut runs = 0;
+    let mut blocked_runs = 0;
     loop {
         let pre = prefix.clone();
         let (out, extra) = lrun_schedule(su, &mut |k, enabled, pos| {
@@ -412,6 +459,11 @@ fn lexplore(su: &LSetup, reduced: bool, max_runs: usize, mut each: impl FnMut(&R
         })?;
         runs += 1;
         each(&out, &extra);
+        if extra.unhooked_blocks > 0 {
+            // every such run costs SOFT per block, and its timing is not exactly repeatable: a few of them are enough
+            blocked_runs += 1;
+            if blocked_runs >= 6 { return Ok((runs, false)); }
+        }
         let choices: Vec<usize> = out.trace.iter().map(|t| t.0).collect();
         let mut k = choices.len();
         let mut next: Option<Vec<usize>> = None;
@@ -559,6 +611,14 @@ fn ljudge(or: &mut Oracle, d: &GDoc, cfg: u8, ts: &[Vec<LItem>], seq: &[Vec<Stri
     }
 }
 
+/// the instrumentation of `Lazy::load` is optional: without it the run is still judged by the oracles, but its
+/// schedule cannot be mapped onto the model's steps
+fn hooks_absent(ts: &[Vec<LItem>], out: &RunOut, extra: &LExtra) -> bool {
+    let has_lazy = ts.iter().any(|t| t.iter().any(|i| matches!(i, LItem::Lazy(_))));
+    let seen = out.trace.iter().any(|(_, p)| matches!(p, Pos::LEnter(_) | Pos::LStore(_)));
+    extra.unhooked_blocks > 0 || (has_lazy && !seen && !out.trace.is_empty())
+}
+
 struct LBatch { requests: Vec<String>, impls: Vec<String> }
 
 fn lflush(driver: &Driver, st: &mut RStream, b: &mut LBatch) {
@@ -580,6 +640,7 @@ fn lenumerate(name: &str, st: &mut RStream, or: &mut Oracle, b: &mut LBatch, see
     let su = LSetup { bytes, tolerant: d.tolerant, cfg, shared_resolver: shared, pages, threads: ts, optimistic: false };
     let r = lexplore(&su, reduced, cap, |out, extra| {
         ljudge(or, d, cfg, ts, &seq, out, extra, &replay);
+        if hooks_absent(ts, out, extra) { st.count("Lazy::load has no yield points: schedule not replayed on the model"); return; }
         b.requests.push(lrequest(d, false, cfg, ts, &out.sched_text()));
         b.impls.push(out.text());
         st.count(&format!("steps={}", out.trace.len() / 8 * 8));
@@ -599,6 +660,7 @@ fn lprobe(name: &str, st: &mut RStream, or: &mut Oracle, b: &mut LBatch, d: &GDo
     progress(&replay);
     let su = LSetup { bytes, tolerant: d.tolerant, cfg, shared_resolver: shared, pages, threads: ts, optimistic: true };
     let mut j = 1usize;
+    let mut blocked_runs = 0;
     loop {
         let mut exhausted = false;
         let r = lrun_schedule(&su, &mut |k, cand, _| {
@@ -608,9 +670,13 @@ fn lprobe(name: &str, st: &mut RStream, or: &mut Oracle, b: &mut LBatch, d: &GDo
         match r {
             Ok((out, extra)) => {
                 ljudge(or, d, cfg, ts, &seq, &out, &extra, &replay);
-                b.requests.push(lrequest(d, false, cfg, ts, &out.sched_text()));
-                b.impls.push(out.text());
+                if !hooks_absent(ts, &out, &extra) {
+                    b.requests.push(lrequest(d, false, cfg, ts, &out.sched_text()));
+                    b.impls.push(out.text());
+                }
                 st.count(&format!("probe-run: blocked={} entered={}", extra.probes_blocked, extra.overlapping_entries));
+                if extra.unhooked_blocks > 0 { blocked_runs += 1; }
+                if blocked_runs >= 4 { break; }
             }
             Err(e) => { st.count(&format!("unreadable={}", &e[..e.len().min(24)])); break; }
         }
@@ -703,8 +769,10 @@ pub fn stream_lazy_random(driver: &Driver, seed: u64, from: u64, to: u64, or: &m
         match lrun_schedule(&su, &mut |_, enabled, _| Some(*r2.pick(enabled))) {
             Ok((out, extra)) => {
                 ljudge(or, &d, cfg, &ts, &seq, &out, &extra, &replay);
-                b.requests.push(lrequest(&d, false, cfg, &ts, &out.sched_text()));
-                b.impls.push(out.text());
+                if !hooks_absent(&ts, &out, &extra) {
+                    b.requests.push(lrequest(&d, false, cfg, &ts, &out.sched_text()));
+                    b.impls.push(out.text());
+                }
                 st.count(&format!("threads={}", ts.len()));
                 st.count(&format!("cfg={}", cfg_text(cfg)));
                 for (_, f) in &d.annots { st.count(match f { AForm::Direct(_) => "cell=direct-array", AForm::Ref(_) => "cell=indirect-array", AForm::Absent => "cell=absent" }); }
